@@ -140,17 +140,25 @@ def distance(setmap, p1, p2):
     """
     Compute distance between two platforms
     """
+    lines = 0
     total = 0
     for pset, count in setmap.items():
+        lines += count
         if (p1 in pset) or (p2 in pset):
             total += count
-    if total == 0:
+    # Undefined without any line of code; two platforms that both use
+    # no line at all are identical.
+    if lines == 0:
         return float("nan")
+    if total == 0:
+        return 0.0
     d = 0
     for pset, count in setmap.items():
         if (p1 in pset) ^ (p2 in pset):
-            d += count / float(total)
-    return d
+            d += count
+    # Divide once: a sum of separately rounded quotients can exceed 1 and
+    # depends on the order of the entries.
+    return d / total
 
 
 def divergence(setmap):
